@@ -136,8 +136,6 @@ def p1_two(n: int, s1: int, e1: int, a1: int, b1: int, p1: int, i1: bool,
         return dx == 0 and dy == 0
     if a1 <= s2 and e2 <= b1:                      # inside the other's parse group: nests
         return dx == 0 and dy == (1 if i1 else -1)
-    if e1 >= e2 and b1 <= s2:                      # wholly inside x's trailing delimiter (p2 <= p1 here)
-        return dx == 0 and dy == -1
     if p1 >= p2:                                   # higher precedence wins, ties to the earlier
         return dx == 0 and dy == -1
     return dx == -1 and dy == 0
@@ -152,14 +150,12 @@ def expected_pair(x, y):
         return (0, 0)
     if a1 <= s2 and e2 <= b1:
         return (0, 1 if i1 else -1)
-    if e1 >= e2 and b1 <= s2:
-        return (0, -1)
     if p1 >= p2:
         return (0, -1)
     return (-1, 0)
 
 
-@lemma('P2.k-candidates', 'C16', quick=[{'k': 3, 'ord': o} for o in range(4)], thorough=[{'k': 3, 'ord': o} for o in range(4)],
+@lemma('P2.k-candidates', 'C16', quick=[{'k': 3, 'ord': o, 'i1': i} for o in range(4) for i in (False, True)], thorough=[{'k': 3, 'ord': o, 'i1': i} for o in range(4) for i in (False, True)],
        timeout=600, per_path=30,
        stubs=['SpanStr', 'stub token classes / match objects'],
        covers=['span_tokenizer.py:eval_tokens', 'span_tokenizer.py:eval_new_child', 'span_tokenizer.py:relation',
@@ -175,7 +171,7 @@ def p2_three(n: int, s1: int, e1: int, a1: int, b1: int, p1: int, i1: bool,
     pre: 0 <= s2 <= a2 <= b2 <= e2 <= n and s2 < e2
     pre: 0 <= s3 <= a3 <= b3 <= e3 <= n and s3 < e3
     pre: s1 <= s2 <= s3
-    pre: p2_part(s1, e1, a1, b1, s2, e2)
+    pre: p2_part(s1, e1, a1, b1, s2, e2) and i1 == P('i1')
     post: _
     """
     c1, c2, c3 = (s1, e1, a1, b1, p1, i1), (s2, e2, a2, b2, p2, i2), (s3, e3, a3, b3, p3, i3)
@@ -267,9 +263,9 @@ def _src(tokens, out):
 
 
 @lemma('P3.real-patterns', 'C16',
-       quick=[{'N': 4, 'pA': 5, 'pB': 5, 'iA': True, 'iB': True, 'gB': 1}, {'N': 4, 'pA': 4, 'pB': 6, 'iA': True, 'iB': False, 'gB': 1},
-              {'N': 4, 'pA': 6, 'pB': 4, 'iA': False, 'iB': True, 'gB': 1}],
-       thorough=[{'N': 5, 'pA': a, 'pB': b, 'iA': ia, 'iB': ib, 'gB': 1, 'timeout': 900}
+       quick=[{'N': 3, 'pA': 5, 'pB': 5, 'iA': True, 'iB': True, 'gB': 1}, {'N': 3, 'pA': 4, 'pB': 6, 'iA': True, 'iB': False, 'gB': 1},
+              {'N': 3, 'pA': 6, 'pB': 4, 'iA': False, 'iB': True, 'gB': 1}],
+       thorough=[{'N': 4, 'pA': a, 'pB': b, 'iA': ia, 'iB': ib, 'gB': 1, 'timeout': 3000}
                  for a, b in ((5, 5), (4, 6), (6, 4)) for ia in (True, False) for ib in (True, False)],
        timeout=300,
        covers=['span_tokenizer.py:tokenize', 'span_tokenizer.py:find_tokens', 'base_renderer.py:BaseRenderer.__init__',
@@ -406,8 +402,6 @@ def replay_p1(n, s1, e1, a1, b1, p1, i1, s2, e2, a2, b2, p2, i2):
         want = (0, 0)
     elif a1 <= s2 and e2 <= b1:
         want = (0, 1 if i1 else -1)
-    elif e1 >= e2 and b1 <= s2:
-        want = (0, -1)
     elif p1 >= p2:
         want = (0, -1)
     else:
